@@ -19,16 +19,17 @@ var verifRoot = envOr("VERIF_HOME", "/verif")
 
 // Ctx carries everything one check run needs.
 type Ctx struct {
-	ID      string
-	Tier    string
-	Seed    int64
-	Replay  string
-	Repo    string // tree under test ($VERIF_REPO, default /repo)
-	Bin     string // CLI built from Repo with -tags verif
-	Scratch string // per-run scratch directory under /verif/.scratch
-	Keep    bool
-	Wall    float64
-	Summary string
+	timeoutRetries int64 // CLI runs that were repeated with a longer period after a timeout
+	ID             string
+	Tier           string
+	Seed           int64
+	Replay         string
+	Repo           string // tree under test ($VERIF_REPO, default /repo)
+	Bin            string // CLI built from Repo with -tags verif
+	Scratch        string // per-run scratch directory under /verif/.scratch
+	Keep           bool
+	Wall           float64
+	Summary        string
 
 	Level       string
 	Cov         map[string]any
@@ -197,6 +198,9 @@ func (c *Ctx) writeEvidence() error {
 	cov := c.Cov
 	if c.Assumptions == nil {
 		c.Assumptions = []string{}
+	}
+	if c.timeoutRetries > 0 {
+		cov["cli_runs_repeated_after_timeout"] = c.timeoutRetries
 	}
 	cov["evaluations"] = c.evaluations
 	cov["distinct_nontrivial"] = len(c.nontrivial)
